@@ -293,6 +293,16 @@ pub fn gen(prop: &str, seed: u64) -> Plan {
                 gen("C09", seed)
             };
             p.property = "C17".into();
+            // clean restarts while sync is under way: afterwards a stored matched-blocks record is
+            // not in memory until the filter timer recovers it (or something discards it)
+            if mix(&[seed, 0xc17f]) % 2 == 0 {
+                let span = p.actions.iter().map(|a| a.at).max().unwrap_or(60_000).max(20_000);
+                for j in 0..(1 + mix(&[seed, 0xc180]) % 3) {
+                    let at = 4_000 + mix(&[seed, 0xc181, j]) % (span * 2 / 3);
+                    p.actions.push(Timed { at, action: Action::Restart });
+                }
+                p.actions.sort_by_key(|a| a.at);
+            }
             p
         }
         "C01" => gen_byz(seed, "C01"),
@@ -474,6 +484,14 @@ fn gen_c12_two_chains(seed: u64) -> Plan {
 fn gen_c05(seed: u64) -> Plan {
     if mix(&[seed, 0xc05d]) % 6 == 0 {
         return gen_c05_reorg(seed);
+    }
+    if mix(&[seed, 0xc05f]) % 12 == 0 {
+        // slow honest peers: the proof request is answered late with a newer last state only, the
+        // replacing request late again; refresh ticks fall between the two deadlines
+        let mut p = gen_c11_slow(seed);
+        p.property = "C05".into();
+        p.flags = vec!["honest".into()];
+        return p;
     }
     gen_c05_like(seed, "C05")
 }
